@@ -1,4 +1,7 @@
-import Sucds.Proofs.GenAll
+import Sucds.Proofs.GenBroadword
+import Sucds.Proofs.GenBitVectorRW
+import Sucds.Proofs.GenBitVectorScan
+import Sucds.Proofs.GenIterators
 import Sucds.Proofs.DacsOptWidths
 /-! # `DacsOpt::compute_opt_widths` generated from `src/int_vectors/dacs_opt.rs` agrees with the model
 
